@@ -467,15 +467,22 @@ def item_xml(it):
     name, paras = unhx(f[0]), [unhx(q) for q in f[1:]]
     geo = ' draw:z-index="0" draw:name="O&amp;1" svg:width="3cm" svg:height="2cm" svg:x="0cm" svg:y="0cm"'
     if name == "draw:frame":
-        if paras:
+        if len(paras) >= 3:
+            # a text box holding a paragraph with a text box anchored in it, then more paragraphs
+            # (same-name nesting: a reader that stops at the first </draw:frame> leaks the rest)
+            nested = '<draw:frame%s><draw:text-box>%s</draw:text-box></draw:frame>' % (geo, para_xml(paras[0]))
+            inner = "<draw:text-box><text:p>%s</text:p>%s</draw:text-box>" % (nested, "".join(para_xml(q) for q in paras[1:]))
+        elif paras:
             inner = "<draw:text-box>%s</draw:text-box>" % "".join(para_xml(q) for q in paras)
         else:
             inner = '<draw:image xlink:href="Pictures/1.png" xlink:type="simple"><text:p/></draw:image>'
         return '<draw:frame table:end-cell-address="S.C4"%s>%s</draw:frame>' % (geo, inner)
     if name == "draw:g":
-        # a group inside a group, each shape with one paragraph
-        inner = "".join('<draw:rect%s>%s</draw:rect>' % (geo, para_xml(q)) for q in paras)
-        return "<draw:g><draw:g>%s</draw:g><draw:line/></draw:g>" % inner
+        # a group inside a group, each shape with one paragraph; the last shape stands in the
+        # outer group AFTER the inner one (a reader that stops at the first </draw:g> leaks it)
+        rect = lambda q: '<draw:rect%s>%s</draw:rect>' % (geo, para_xml(q))
+        return "<draw:g><draw:g>%s</draw:g><draw:line/>%s</draw:g>" % (
+            "".join(rect(q) for q in paras[:-1]), "".join(rect(q) for q in paras[-1:]))
     if name == "draw:custom-shape":
         return '<draw:custom-shape%s>%s<draw:enhanced-geometry draw:type="rectangle"/></draw:custom-shape>' % (
             geo, "".join(para_xml(q) for q in paras))
